@@ -92,7 +92,7 @@ def cases(draw):
         kind = draw(st.sampled_from(RAW_SITES if raw else ESCAPED_SITES))
         cls = draw(st.sampled_from(
             ["str", "str", "str", "bytes", "strsub", "obj", "int", "float",
-             "msg", "html"]))
+             "msg", "html", "intsub", "floatsub"]))
         if kind in ("structure", "structure_replace", "structure_expr",
                     "cdata") and cls in ("msg", "html"):
             cls = "str"
@@ -105,7 +105,10 @@ def cases(draw):
             text = text.replace("--", "- -")
         sites.append({"kind": kind, "cls": cls, "text": text,
                       "num": draw(st.sampled_from([0, 7, -3, 1.5, 1e3]))})
-    return {"sites": sites, "mode": "xml"}
+    return {"sites": sites, "mode": "xml",
+            # implicit translation routes plain ${name} interpolations (and
+            # the attribute 'x') through the translation machinery
+            "implicit": draw(st.sampled_from([False, False, True]))}
 
 
 STRING_SITES = ("string_brace", "string_name", "attrs_string")
@@ -142,6 +145,10 @@ def value_of(site, harmless=False, index=0):
         return values.Msg("id%d" % index), t
     if c == "html":
         return values.Html(t), t
+    if c == "intsub":
+        return values.IntSub(3, t), t
+    if c == "floatsub":
+        return values.FloatSub(2.5, t), t
     raise ValueError(c)
 
 
@@ -179,7 +186,11 @@ def make_translate(trans):
 def render(case, harmless=False):
     from chameleon import PageTemplate
     src, env, trans = build(case, harmless)
-    o = run(PageTemplate, src, translate=make_translate(trans))
+    cfg = {}
+    if case.get("implicit"):
+        cfg = {"implicit_i18n_translate": True,
+               "implicit_i18n_attributes": {"x"}}
+    o = run(PageTemplate, src, translate=make_translate(trans), **cfg)
     if not o.ok:
         return src, o
     return src, run(o.value.render, **env)
@@ -211,6 +222,8 @@ class Escape(Part):
             yield "needs_escape"
         if any(is_raw(s) for s in case["sites"]):
             yield "optout"
+        if case.get("implicit"):
+            yield "implicit_i18n"
         for s in case["sites"]:
             yield "site_" + s["kind"]
             yield "cls_" + s["cls"]
